@@ -70,6 +70,8 @@ type Params struct {
 	Deadline int64
 	// Calls > 1: Connect is called that many times on the same Connection; every call is judged on its own.
 	Calls int
+	// NoGetBody: the request has a body that cannot be obtained again (only matters when a retry is due).
+	NoGetBody bool
 }
 
 func (p Params) Name() string {
@@ -79,6 +81,9 @@ func (p Params) Name() string {
 	}
 	if p.Calls > 1 {
 		extra += fmt.Sprintf("-calls%d", p.Calls)
+	}
+	if p.NoGetBody {
+		extra += "-nogetbody"
 	}
 	return fmt.Sprintf("retries%d-reject%v-chunk%d-bodies%d..%d-canceller%v%s-mul%v%s", p.MaxRetries, p.Reject, p.Chunk, p.Lo, p.Hi, p.Canceller, p.Special, p.Mul, extra)
 }
@@ -110,7 +115,7 @@ func body(p Params) func() {
 		}
 		first := true
 		var chosen ch.Outcome
-		w.T = &ch.Transport{Ctx: ctx, Live: p.Canceller, Next: func(n int) (ch.Outcome, bool) {
+		w.T = &ch.Transport{Ctx: ctx, Live: p.Canceller || p.Special == "cancel-in-callback", Next: func(n int) (ch.Outcome, bool) {
 			if n > (p.MaxRetries+3)*max(p.Calls, 1) && (p.Deadline == 0 || n > 12) {
 				return ch.Outcome{}, false // runaway guard: the oracle will complain about the attempt count
 			}
@@ -127,6 +132,10 @@ func body(p Params) func() {
 			case "fail-plain":
 				w.Body, w.End = "(every attempt is a transport failure)", "fail"
 				return ch.Outcome{Kind: "fail"}, true
+			case "cancel-in-callback":
+				// three complete events in one chunk; the first callback cancels the request context
+				w.Body, w.End = "data:1\n\ndata:2\n\ndata:3\n\n", "eof"
+				return ch.Outcome{Kind: "ok", Stream: w.Body, End: "eof"}, true
 			case "toolong-hang":
 				w.Body, w.End = "(an event larger than the buffer limit, body stays open)", "toolong"
 				return ch.Outcome{Kind: "ok", Stream: "data: " + strings.Repeat("y", 100), Hang: true}, true
@@ -147,11 +156,20 @@ func body(p Params) func() {
 				}
 				return nil
 			}}
-		conn := cl.NewConnection(ch.NewRequest(ctx, http.NoBody))
+		var reqBody io.Reader = http.NoBody
+		if p.NoGetBody {
+			reqBody = struct{ io.Reader }{strings.NewReader("a body without GetBody")}
+		}
+		conn := cl.NewConnection(ch.NewRequest(ctx, reqBody))
 		if p.Special == "toolong-hang" {
 			conn.Buffer(nil, 32)
 		}
-		conn.SubscribeToAll(func(sse.Event) { w.Events++ })
+		conn.SubscribeToAll(func(sse.Event) {
+			w.Events++
+			if p.Special == "cancel-in-callback" && w.Events == 1 {
+				ctx.CancelNow()
+			}
+		})
 		var canc vrt.Handle
 		if p.Canceller {
 			canc = vrt.GoNamed("canceller", func() { ctx.Cancel() })
@@ -250,6 +268,12 @@ func check(p Params) func(r *vrt.Result) string {
 		wantAttempts := 1
 		if p.MaxRetries > 0 {
 			wantAttempts = 1 + p.MaxRetries
+		}
+		if p.NoGetBody && p.MaxRetries < 0 && errors.Is(w.Err, sse.ErrNoGetBody) {
+			return fmt.Sprintf("no retry was due, yet Connect reports ErrNoGetBody instead of the last attempt's error: %s", desc)
+		}
+		if p.Special == "fail-plain" && !errors.Is(w.Err, ch.ErrTransport) {
+			return fmt.Sprintf("every attempt failed in the transport but Connect reports %v: %s", ce.Err, desc)
 		}
 		if p.Special == "fail-deadline" || p.Special == "fail-canceled" || p.Special == "fail-plain" || p.Special == "toolong-hang" {
 			if len(w.T.Attempts) != wantAttempts {
@@ -401,6 +425,13 @@ func Scenarios(tier string) []run.Scenario {
 			}
 		}
 	}
+	// a request body that cannot be obtained again while no retry is due: the last attempt's error, not ErrNoGetBody
+	add(Params{MaxRetries: -1, Special: "fail-plain", NoGetBody: true})
+	add(Params{MaxRetries: -1, Chunk: 0, Bodies: bodies, Lo: 0, Hi: 64, Ends: []string{"eof", "err"}, NoGetBody: true})
+	// a callback cancels the request context while further complete events are already buffered
+	for _, mr := range []int{-1, 1, 0} {
+		add(Params{MaxRetries: mr, Special: "cancel-in-callback"})
+	}
 	// Connect called again and again on one Connection
 	for _, mr := range []int{-1, 1, 2} {
 		for _, mul := range []float64{0, 1} {
@@ -424,7 +455,7 @@ func Scenarios(tier string) []run.Scenario {
 
 var Check = &run.Check{
 	ID: "C11", Level: "model_checking",
-	Rule: "Scenarios: the real Connect loop on the virtual clock; the response body is every distinct prefix (cut after any byte) of every string of <= 4 (thorough 5) tokens over {LF, data:x, :c, foo, id:a, retry:1, d}, ending with a clean EOF, a read error, or a cancellation of the request context at that read; delivered whole or byte at a time; MaxRetries -1 / 1 / 2; validator accepting or rejecting; plus a second thread that cancels at every possible moment (before the attempt, between any two reads, while Connect waits for its retry timer - all interleavings), plus request contexts whose deadline falls between, at or after the retry instants; plus three Connect calls on one Connection (each must retry afresh); plus the same bodies through sse.Read. Body and ending are explorer choices inside each scenario.",
+	Rule: "Scenarios: the real Connect loop on the virtual clock; the response body is every distinct prefix (cut after any byte) of every string of <= 4 (thorough 5) tokens over {LF, data:x, :c, foo, id:a, retry:1, d}, ending with a clean EOF, a read error, or a cancellation of the request context at that read; delivered whole or byte at a time; MaxRetries -1 / 1 / 2; validator accepting or rejecting; plus a second thread that cancels at every possible moment (before the attempt, between any two reads, while Connect waits for its retry timer - all interleavings), plus request contexts whose deadline falls between, at or after the retry instants; plus three Connect calls on one Connection (each must retry afresh); a request body without GetBody when no retry is due; a callback that cancels the request context while complete events are still buffered; plus the same bodies through sse.Read. Body and ending are explorer choices inside each scenario.",
 	Assumptions: []string{
 		"a cancelled request makes the response body fail with the context's error (net/http's documented behaviour), reproduced by the harness body",
 	},
